@@ -73,6 +73,9 @@ def step_shape(P, fn, callee, cursor_field):
                         v = ('selffield', pr['i'])
                     elif isinstance(v, tuple) and v[0] == 'closenv':
                         v = v[1][pr['i']]
+                    elif isinstance(v, tuple) and v[0] == 'variant' and isinstance(v[1], tuple) and v[1][0] == 'try' and pr['i'] == 0:
+                        # `x?`: Continue(payload) is the payload of Some, Break(residual) is None
+                        v = ('proj', ('variant', v[1][1], 1), 0) if v[2] in (0, None) else ('agg', 'std::option::Option', 0, ())
                     else:
                         v = ('proj', v, pr['i'])
                 else:
@@ -122,6 +125,12 @@ def step_shape(P, fn, callee, cursor_field):
             work.append((t['target'], env, asm, stores))
         elif k == 'switch':
             v = operand(t['op'])
+            if isinstance(v, tuple) and v[0] == 'discr' and isinstance(v[1], tuple) and v[1][0] == 'try':
+                # discriminant of Try::branch(x): 0 = Continue <=> x is Some, 1 = Break <=> x is None
+                v = ('discr', v[1][1])
+                for val, tg in t['targets']:
+                    work.append((tg, env, asm + [(v, 1 if val == 0 else 0)], stores))
+                continue
             for val, tg in t['targets']:
                 work.append((tg, env, asm + [(v, val)], stores))
             work.append((t['otherwise'], env, asm + [(v, 'else', tuple(x for x, _ in t['targets']))], stores))
@@ -144,7 +153,12 @@ def step_shape(P, fn, callee, cursor_field):
                     e1[t['dest']['local']] = ('agg', 'std::option::Option', 1, (r,))
                     work.append((t['target'], e1, asm + [(('discr', X), 1)], stores + st2))
                 continue
-            env[t['dest']['local']] = ('call', name, tuple(args))
+            if name.endswith('Try>::branch') and len(args) == 1:
+                env[t['dest']['local']] = ('try', args[0])
+            elif name.endswith('::from_residual'):
+                env[t['dest']['local']] = ('agg', 'std::option::Option', 0, ())
+            else:
+                env[t['dest']['local']] = ('call', name, tuple(args))
             if t['target'] is not None and t['target'] >= 0:
                 work.append((t['target'], env, asm, stores))
         elif k == 'drop':
